@@ -208,7 +208,17 @@ def _run(ch: Choices, focus: str = "C11", params: Optional[dict] = None) -> dict
             first_plan = dict(plan, template="merge", start={}, stall={})
             k1 = ch.choose(3, "first_op")  # the earlier call may be of another kind (enumeration, then optimisation, ...)
             first_op = [["solve"], ["minimize", ch.choose(nv, "first_obj")], ["maximize", ch.choose(nv, "first_obj")]][k1]
-            run_parent(ch, solvers, first_op, first_plan, run_worker, cache, parent=parent)
+            if first_op[0] == "solve" and ch.chance(1, 2, "first_abandoned"):
+                # the consumer of the earlier enumeration stopped after a few solutions (or none): its workers are
+                # still alive, blocked or busy, when the judged call starts - they are children of the caller too
+                r1 = run_parent(ch, solvers, first_op, first_plan, run_worker, cache, parent=parent, abandon_after=ch.choose(3, "first_abandoned.n"))
+                left = sum(1 for p_ in r1["procs"] if p_.started and p_._alive_now())
+                if left:
+                    plan["bystanders"] = plan.get("bystanders", 0) + left
+                out["probes"]["earlier_enumeration_abandoned"] += 1
+                out["probes"]["earlier_enumeration_abandoned_with_live_workers"] += 1 if left else 0
+            else:
+                run_parent(ch, solvers, first_op, first_plan, run_worker, cache, parent=parent)
             out["probes"]["second_call_on_same_instance"] += 1
             out["probes"]["second_call_of_another_kind"] += 1 if first_op[0] != op[0] else 0
     res = run_parent(ch, solvers, op, plan, run_worker, cache, parent=parent)
@@ -311,7 +321,7 @@ def new_parent(solvers):
     return MultiprocessingSolver(solvers, log_level="ERROR")
 
 
-def run_parent(ch, solvers, op, plan, run_worker, cache, parent=None) -> dict:
+def run_parent(ch, solvers, op, plan, run_worker, cache, parent=None, abandon_after=None) -> dict:
     """Run the real parent against a fresh World fed from the (cached) worker streams.  `parent` may be an instance
     that has already served earlier calls (the parent never mutates its solvers, so reuse is legal)."""
     world = mpsim.World(ch, plan, run_worker, cache)
@@ -322,7 +332,14 @@ def run_parent(ch, solvers, op, plan, run_worker, cache, parent=None) -> dict:
         with mpsim.patched(world):
             if op[0] == "solve":
                 api = ch.choose(3, "api")  # the three public ways to enumerate
-                if api == 1:
+                if abandon_after is not None:
+                    it = parent.solve()
+                    for s in it:
+                        if len(res["yielded"]) >= abandon_after:
+                            break
+                        res["yielded"].append(tuple(int(x) for x in s))
+                    it.close()
+                elif api == 1:
                     res["yielded"].extend(tuple(int(x) for x in s) for s in parent.find_all())
                 elif api == 2:
                     parent.solve_all(lambda s: res["yielded"].append(tuple(int(x) for x in s)))
